@@ -68,3 +68,48 @@ Lemma text_items_project_lemma : forall g,
   map (fun it => (ti_name it, ti_flat it, ti_cum it)) (text_items g) =
   map (fun e => (printable_name (fst e), flat_value (snd e), cum_value (snd e))) (g_nodes g).
 Proof. intros g. unfold text_items. rewrite map_map. reflexivity. Qed.
+
+(* ---------------- C05 at the report level ---------------- *)
+Lemma graph_total_is_sum_flat : forall g : igraph,
+  graph_total g = fold_left (fun a it => wadd a (ti_flat it)) (text_items g) 0.
+Proof.
+  intros g. unfold graph_total, text_items.
+  generalize 0. induction (g_nodes g) as [|e r IH]; intros z; simpl; [reflexivity|]. apply IH.
+Qed.
+
+Lemma insert_by_in : forall (A : Type) (less : A -> A -> bool) x y l,
+  In y (insert_by less x l) <-> y = x \/ In y l.
+Proof.
+  intros A less x y l. induction l as [|z r IH]; simpl.
+  - split; intros [H|H]; auto.
+  - destruct (less z x); simpl.
+    + rewrite IH. split; intros H; repeat destruct H as [H|H]; auto.
+    + split; intros H; repeat destruct H as [H|H]; auto.
+Qed.
+
+Lemma sort_by_in : forall (A : Type) (less : A -> A -> bool) y l, In y (sort_by less l) <-> In y l.
+Proof.
+  intros A less y l. unfold sort_by. induction l as [|x r IH]; simpl; [tauto|].
+  rewrite insert_by_in, IH. split; intros [H|H]; auto.
+Qed.
+
+(* every entry a text (top / tree) report shows, for any nodecount, node cutoff, edge cutoff and sort
+   order, is an entry of the untrimmed graph of the same report, with the same numbers *)
+Theorem text_report_nodes_unchanged_lemma : forall o pr n v,
+  In (n, v) (g_nodes (t_g (new_trimmed_text o pr))) -> In (n, v) (g_nodes (report_graph o pr None)).
+Proof.
+  intros o pr n v. unfold new_trimmed_text.
+  assert (H1 : forall x, In x (g_nodes (fst (trim_pass1 o pr))) -> In x (g_nodes (report_graph o pr None))).
+  { intros [k w]. unfold trim_pass1. destruct (0 <? o_nodecutoff o); [|auto].
+    destruct (negb (nlen (report_graph o pr None) =? Z.of_nat (List.length (above_cum_cutoff node_info (o_nodecutoff o) (report_graph o pr None)))));
+      [|auto].
+    simpl fst. unfold report_graph. apply kept_nodes_unchanged_graph_lemma. exact ni_eqb_spec. }
+  destruct (trim_pass1 o pr) as [g1 dropped]. simpl fst in H1.
+  cbn [t_g]. unfold trim_edges. cbn [g_nodes].
+  destruct (0 <? o_nodecount o).
+  - match goal with |- context [if ?c then _ else _] => destruct c end.
+    + unfold sort_nodes. cbn [g_nodes]. intros H. apply sort_by_in in H.
+      unfold report_graph in *. eapply kept_nodes_unchanged_graph_lemma; [exact ni_eqb_spec|exact H].
+    + cbn [g_nodes]. unfold sort_nodes. cbn [g_nodes]. intros H. apply sort_by_in in H. apply H1. exact H.
+  - unfold sort_nodes. cbn [g_nodes]. intros H. apply sort_by_in in H. apply H1. exact H.
+Qed.
